@@ -338,6 +338,10 @@ class MinGenSet():
                     "solve_time": time.perf_counter() - start_time,
                     "status": self.solver.get_model_status(),
                 }
+                if self.solver.get_model_status() != sw.SolverWrapper.infeasible_status:
+                    # The solver stopped without proving infeasibility (time limit, etc.):
+                    # a larger k would not be guaranteed to be minimum, so we stop the search.
+                    return False
         return False
 
     def is_solved(self):
